@@ -393,6 +393,8 @@ impl Ctx {
                     };
                     let mut runner = TestRunner::new(cfg);
                     let failed_here = std::cell::Cell::new(false);
+                    // the first failing execution, kept for failures that depend on timing
+                    let first: std::cell::RefCell<Option<(T, Fail)>> = std::cell::RefCell::new(None);
                     let strat = mk();
                     let r = runner.run(&strat, |case| {
                         if stop.load(Ordering::Relaxed) && !failed_here.get() {
@@ -405,6 +407,9 @@ impl Ctx {
                         match self.eval(&case, check, record) {
                             None => Ok(()),
                             Some(f) => {
+                                if !failed_here.get() {
+                                    *first.borrow_mut() = Some((case.clone(), f.clone()));
+                                }
                                 failed_here.set(true);
                                 stop.store(true, Ordering::Relaxed);
                                 Err(TestCaseError::fail(f.kind))
@@ -414,9 +419,19 @@ impl Ctx {
                     if let Err(TestError::Fail(_, min)) = r {
                         // re-derive the failure on the shrunk case
                         let mut min = min;
-                        let mut f = self
-                            .eval(&min, check, false)
-                            .unwrap_or_else(|| Fail::new("unstable", "shrunk case no longer fails (flaky?)"));
+                        let mut f = match self.eval(&min, check, false) {
+                            Some(f) => f,
+                            None => match first.borrow_mut().take() {
+                                // not reproducible on re-execution (the outcome depends on timing, e.g. free-running
+                                // threads): report what the first failing execution observed, on its own case
+                                Some((c0, mut f0)) => {
+                                    f0.detail = format!("{}\n(observed once; re-executing the case did not fail again: the outcome depends on timing)", f0.detail);
+                                    min = c0;
+                                    f0
+                                }
+                                None => Fail::new("unstable", "shrunk case no longer fails (flaky?)"),
+                            },
+                        };
                         if let Some(sh) = shrinker {
                             let kind = f.kind.clone();
                             let still = |c: &T| self.eval(c, check, false).is_some_and(|g| g.kind == kind);
